@@ -130,9 +130,13 @@ class NP:
         return objarr(shape, 0.0)
 
     def zeros_like(self, a, **kw):
+        if isinstance(a, _np.ndarray) and a.dtype.kind in 'iub':
+            return _np.zeros_like(a, **kw)      # an integer/boolean template keeps its dtype, as in numpy (truncation is visible)
         return objarr(_np.shape(a), 0.0)
 
     def ones_like(self, a, **kw):
+        if isinstance(a, _np.ndarray) and a.dtype.kind in 'iub':
+            return _np.ones_like(a, **kw)
         return objarr(_np.shape(a), 1.0)
 
     def arange(self, start, stop=None, step=1, **kw):
